@@ -65,7 +65,7 @@ pub struct Case {
 }
 
 // every 5xx is a transient server failure and every 4xx other than 429 a definitive refusal, not only the common codes
-const HTTP_BEHAVIOURS: [&str; 24] = ["ok", "500", "502", "503", "504", "501", "507", "521", "599", "429", "429ra", "400", "403", "404", "401", "410", "418", "malformed200", "empty200", "refused", "reset", "stall", "body_reset", "body_stall"];
+const HTTP_BEHAVIOURS: [&str; 30] = ["ok", "500", "502", "503", "504", "501", "507", "521", "599", "429", "429ra", "429ra0", "429radate", "429rafrac", "429rabad", "429rabig", "429raneg", "400", "403", "404", "401", "410", "418", "malformed200", "empty200", "refused", "reset", "stall", "body_reset", "body_stall"];
 const TCP_BEHAVIOURS: [&str; 13] = ["mime_ok", "mime_ok_data", "v2_ok", "v2_blank", "malformed", "refused", "close_before", "close_mid", "reset_mid", "stall", "mime_bad_checksum", "mime_ok_sig", "mime_ok_endpoint"];
 const SEGS: [&str; 5] = ["whole", "bytes1", "random", "blank", "tokens"];
 
@@ -449,7 +449,7 @@ fn install(net: &Network, b: &Arc<std::sync::Mutex<Behaviours>>, docs: [String; 
                 Box::pin(async move {
                     let status = match name.as_str() {
                         "ok" | "malformed200" | "empty200" => 200,
-                        "429" | "429ra" => 429,
+                        s if s.starts_with("429") => 429,
                         "refused" => return HttpBehaviour::Refused,
                         "reset" => return HttpBehaviour::Reset { delay_ms: 20 },
                         "stall" => return HttpBehaviour::Stall,
@@ -466,8 +466,20 @@ fn install(net: &Network, b: &Arc<std::sync::Mutex<Behaviours>>, docs: [String; 
                         net3.count("fault:malformed_body");
                     }
                     let mut headers = vec![];
-                    if name == "429ra" {
-                        headers.push(("Retry-After".to_string(), "7".to_string()));
+                    // Retry-After in every form a server may send (RFC 9110: delay seconds or an HTTP date) and
+                    // a few it should not: a 429 is a transient failure whatever the hint says
+                    let hint = match name.as_str() {
+                        "429ra" => Some("7"),
+                        "429ra0" => Some("0"),
+                        "429radate" => Some("Wed, 21 Oct 2026 07:28:00 GMT"),
+                        "429rafrac" => Some("1.5"),
+                        "429rabad" => Some("soon"),
+                        "429rabig" => Some("18446744073709551616"),
+                        "429raneg" => Some("-1"),
+                        _ => None,
+                    };
+                    if let Some(h) = hint {
+                        headers.push(("Retry-After".to_string(), h.to_string()));
                     }
                     HttpBehaviour::Respond { status, headers, body: http_body(&name, &doc), delay_ms: 12 }
                 })
